@@ -1,3 +1,4 @@
+import math
 from simulators.common import ListeningSystem
 
 
@@ -74,14 +75,17 @@ class System(ListeningSystem):
         elif params[1] != 'MHZ':
             return False
         try:
-            self.frequency = float(params[0])
-            return True
+            frequency = float(params[0])
         except ValueError:
             return False
+        if not math.isfinite(frequency * 1000000):
+            return False
+        self.frequency = frequency
+        return True
 
     def getFrequency(self, _):
         # 'FREQ?\n'
-        return str(int(self.frequency) * 1000000)
+        return str(int(round(self.frequency * 1000000)))
 
     def readStatus(self, _):
         # 'SYST:ERR?\n'
